@@ -72,7 +72,7 @@ class BitBuffer:
     def flush(self) -> None:
         if self._type is not None:
             value = self._buffer
-            if _is_signed(self._type) and value >> (self._type.size * 8 - 1):
+            if _is_signed(self._type) and value >> (self._type.size * 8 - 1) == 1:
                 # The unit is accumulated as an unsigned bit pattern, reinterpret it for signed storage types
                 value -= 1 << (self._type.size * 8)
             self._type._write(self.stream, value)
